@@ -189,6 +189,44 @@ fn perturbations(l: &mut Local, z: &ZoneSpec, rng: &mut Rng) -> u64 {
             ("rule_vs_last_type_flag", Box::new(|t: &mut TypeSpec| t.dst = !t.dst)),
             ("rule_vs_last_type_designation", Box::new(|t: &mut TypeSpec| t.desig = Some(if t.desig.as_deref() == Some("ZZZ") { "YYY".into() } else { "ZZZ".into() }))),
             ("rule_vs_last_type_designation_absent", Box::new(|t: &mut TypeSpec| t.desig = if t.desig.is_some() { None } else { Some("ZZZ".into()) })),
+            // near-equal designations: a strict prefix of the rule's, the rule's plus one character, the last character
+            // changed, the case of one letter changed (a comparison over a common length or a packed word would agree)
+            ("rule_vs_last_type_designation_prefix", Box::new(|t: &mut TypeSpec| {
+                t.desig = match t.desig.as_deref() {
+                    Some(d) if d.len() > 3 => Some(d[..d.len() - 1].to_string()),
+                    Some(d) => Some(format!("{}X", d)),
+                    None => Some("ZZZ".into()),
+                }
+            })),
+            ("rule_vs_last_type_designation_extended", Box::new(|t: &mut TypeSpec| {
+                t.desig = match t.desig.as_deref() {
+                    Some(d) if d.len() < 7 => Some(format!("{}0", d)),
+                    Some(d) => Some(d[..d.len() - 1].to_string()),
+                    None => Some("ZZZ".into()),
+                }
+            })),
+            ("rule_vs_last_type_designation_last_character", Box::new(|t: &mut TypeSpec| {
+                t.desig = match t.desig.as_deref() {
+                    Some(d) => {
+                        let mut b = d.as_bytes().to_vec();
+                        let k = b.len() - 1;
+                        b[k] = if b[k] == b'Q' { b'R' } else { b'Q' };
+                        Some(String::from_utf8(b).unwrap())
+                    }
+                    None => Some("ZZZ".into()),
+                }
+            })),
+            ("rule_vs_last_type_designation_case", Box::new(|t: &mut TypeSpec| {
+                t.desig = match t.desig.as_deref() {
+                    Some(d) if d.bytes().any(|c| c.is_ascii_alphabetic()) => {
+                        let mut b = d.as_bytes().to_vec();
+                        let k = b.iter().position(|c| c.is_ascii_alphabetic()).unwrap();
+                        b[k] ^= 0x20;
+                        Some(String::from_utf8(b).unwrap())
+                    }
+                    _ => Some("ZZZ".into()),
+                }
+            })),
         ] {
             let mut p = z.clone();
             // give the last transition a private copy of its type so that nothing else changes
@@ -330,6 +368,10 @@ pub fn run(ctx: &Ctx) -> Report {
         "rule_vs_last_type_flag",
         "rule_vs_last_type_designation",
         "rule_vs_last_type_designation_absent",
+        "rule_vs_last_type_designation_prefix",
+        "rule_vs_last_type_designation_extended",
+        "rule_vs_last_type_designation_last_character",
+        "rule_vs_last_type_designation_case",
         "rule_type_flag_changed",
         "rule_half_designation_changed",
         "no_local_time_type",
